@@ -1,3 +1,207 @@
+//! C07 - under-margined positions can always be liquidated (liveness, fork-and-probe; one transaction, no retries).
+use serde_json::json;
+
+use super::engine_refs::*;
+use crate::obs::{pi, pu};
+use crate::refmodel::*;
 use crate::run::Runner;
-use crate::types::Step;
-pub fn probe(_r: &mut Runner, _step: &Step) {}
+use crate::types::*;
+use crate::world::{KEYS, TREASURY};
+
+fn err_class(e: &str) -> &'static str {
+    if e.contains("parsing") || e.contains("Invalid type") || e.contains("nvalid type") {
+        "decode"
+    } else if e.contains("Overflow") || e.contains("overflow") {
+        "overflow"
+    } else if e.contains("transfer failure") {
+        "transfer"
+    } else if e.contains("panic") {
+        "panic"
+    } else {
+        "other"
+    }
+}
+
+pub fn probe(r: &mut Runner, _step: &Step) {
+    if r.w.cfg.kind != WorldKind::Standard {
+        return;
+    }
+    let d = r.w.d;
+    let eng = match &r.obs.eng {
+        Some(e) => e.clone(),
+        None => return,
+    };
+    if eng.liq_fee == 0 {
+        r.ev.count("skip/liq_fee_zero");
+        return;
+    }
+    let keys: Vec<(usize, String)> = r.obs.pos.iter().filter(|(_, p)| p.size != 0).map(|(k, _)| k.clone()).collect();
+    let okind = if r.w.cfg.oracle == OracleKind::Real { "real_feed" } else { "mock_feed" };
+    for (v, t) in keys {
+        let pos = r.obs.pos[&(v, t.clone())].clone();
+        let vo = r.obs.vamms[v].clone();
+        if !vo.ok || !vo.open || !vo.registered {
+            r.ev.count("skip/vamm_closed_or_unregistered");
+            continue;
+        }
+        if vo.margin_engine != r.w.addrs.engine || vo.insurance_fund != r.w.addrs.insurance_fund {
+            continue;
+        }
+        let va = r.w.addrs.vamms[v].clone();
+        let w = &r.w;
+        // oracle price straight from the feed (the precondition "the oracle has a non-zero price")
+        let feed_price = match w.q(&w.addrs.pricefeed, json!({"get_price": {"key": KEYS[v.min(2)]}})) {
+            Ok(x) => {
+                if x.is_string() {
+                    pu(&x)
+                } else {
+                    pu(&x["price"])
+                }
+            }
+            Err(_) => 0,
+        };
+        if feed_price == 0 {
+            r.ev.count("skip/oracle_price_zero");
+            continue;
+        }
+        let sz = pos.size.unsigned_abs();
+        let out_whole = w.q(&va, json!({"output_amount": {"direction": pos.dir.js(), "amount": sz.to_string()}}));
+        let a = mul_div(sz, eng.partial, d).unwrap_or(0);
+        let out_part = w.q(&va, json!({"output_amount": {"direction": pos.dir.js(), "amount": a.to_string()}}));
+        let (qw, qp) = match (out_whole, out_part) {
+            (Ok(x), Ok(y)) => (pu(&x), pu(&y)),
+            _ => {
+                r.ev.count("skip/closing_trade_not_fillable");
+                continue;
+            }
+        };
+        if qw == 0 {
+            r.ev.count("skip/closing_trade_not_fillable");
+            continue;
+        }
+        // band precondition: spot inside the block's band, or no limit
+        if vo.fluct != 0 {
+            let h = r.obs.height;
+            let pref = r.model.prices[v].iter().rev().find(|x| x.height < h).map(|x| x.price);
+            let inside = match pref {
+                Some(p) => {
+                    let up = mul_div(p, d + vo.fluct, d).unwrap_or(U::MAX);
+                    let lo = mul_div(p, d.saturating_sub(vo.fluct), d).unwrap_or(0);
+                    vo.spot >= lo && vo.spot <= up
+                }
+                None => false,
+            };
+            if !inside {
+                r.ev.count("skip/outside_band");
+                continue;
+            }
+        }
+        // reference liquidation ratio from queries and the feed price
+        let spot_n = qw;
+        let twap = match w.q(&va, json!({"output_twap": {"direction": pos.dir.js(), "amount": sz.to_string()}})) {
+            Ok(x) => pu(&x),
+            Err(_) => {
+                r.ev.count("skip/twap_unavailable");
+                continue;
+            }
+        };
+        let f = match funding_owed(vo.cum, pos.checkpoint, pos.size, d) {
+            Some(x) => x,
+            None => continue,
+        };
+        let (sp, tp) = match (pnl(pos.dir, spot_n, pos.notional), pnl(pos.dir, twap, pos.notional)) {
+            (Some(a), Some(b)) => (a, b),
+            _ => continue,
+        };
+        let (n_sel, p_sel) = if sp.unsigned_abs() > tp.unsigned_abs() { (twap, tp) } else { (spot_n, sp) };
+        let mut rl = match ratio(pos.margin, p_sel, f, n_sel, d) {
+            Some(x) => x,
+            None => continue,
+        };
+        let dev = smul_div(vo.spot as i128 - feed_price as i128, d as i128, feed_price as i128).unwrap_or(0);
+        if dev.unsigned_abs() >= d / 10 {
+            let on = mul_div(feed_price, sz, d).unwrap_or(0);
+            if on > 0 {
+                if let (Some(op), true) = (pnl(pos.dir, on, pos.notional), true) {
+                    if let Some(ro) = ratio(pos.margin, op, f, on, d) {
+                        if ro > rl {
+                            rl = ro;
+                        }
+                    }
+                }
+            }
+        }
+        if rl >= eng.maintenance as i128 {
+            continue;
+        }
+        // all stated preconditions hold: the liquidation must go through
+        let e_spot = pos.margin as i128 + sp - f;
+        let vault = r.obs.bal(&r.w.addrs.engine);
+        let gtfee0 = rl.unsigned_abs() > eng.liq_fee && eng.partial != 0;
+        let need: i128 = if gtfee0 { (mul_div(qp, eng.liq_fee, d).unwrap_or(0) / 2 * 2) as i128 } else { e_spot.max(0) };
+        let vault_short = (vault as i128) < need;
+        let side = if pos.size > 0 { "long" } else { "short" };
+        let pclass = if eng.partial == 0 { "p0" } else if eng.partial >= d { "p1" } else { "pfrac" };
+        let rsign = if rl < 0 { "neg" } else { "nonneg" };
+        let gtfee = rl.unsigned_abs() > eng.liq_fee;
+        let quote_branch = eng.partial != 0 && qp > pos.notional;
+        let liquidator = ["liquidator", "stranger", "keeper"][(r.steps_done + v) % 3].to_string();
+        let topup = r.w.cfg.trader_balance.saturating_mul(40);
+        let nv = r.w.addrs.vamms.len();
+        let ifund = r.w.addrs.insurance_fund.clone();
+        let tt = t.clone();
+        let out = r.fork(|w| {
+            // establish the last precondition: the insurance fund holds enough to cover any shortfall
+            let top = w.exec(TREASURY, &Op::Transfer { to: ifund.clone(), amount: topup }, 0, None);
+            let mut out = w.exec(&liquidator, &Op::Liquidate { vamm: v, trader: tt.clone(), limit: 0 }, 0, None);
+            if !top.ok {
+                out.err = format!("TOPUP-FAILED {}", out.err);
+            }
+            out
+        });
+        if out.err.starts_with("TOPUP-FAILED") {
+            // the insurance fund could not be funded in the fork: the last precondition is not established
+            r.ev.count("skip/insurance_fund_topup_failed");
+            continue;
+        }
+        let bucket = if rl < -(d as i128) { "lt_minus_1" } else if rl < 0 { "neg" } else { "pos" };
+        r.ev.eval(true, &(okind, bucket, pclass, vault_short, side, nv, gtfee), || {
+            json!({"probe": "liveness", "vamm": v, "trader": t, "ratio_liq": rl.to_string(), "maintenance": eng.maintenance.to_string(), "partial_ratio": eng.partial.to_string(), "vault": vault.to_string(), "equity_spot": e_spot.to_string(), "oracle": okind, "liquidated": out.ok})
+        });
+        r.ev.count(&format!("probe/{}/{}/{}{}", okind, bucket, pclass, if vault_short { "/vault_short" } else { "" }));
+        if !out.ok {
+            let ec = err_class(&out.err);
+            let partial_path = gtfee && eng.partial != 0;
+            let disc = if ec == "decode" {
+                // the oracle answer cannot be decoded: nothing else about the state matters
+                format!("{},decode", okind)
+            } else {
+                // identified by failing call site: error class x liquidation path (x vault state for transfer failures)
+                let q_path = if partial_path { qp } else { qw };
+                let fee_zero = mul_div(q_path, eng.liq_fee, d).unwrap_or(0) / 2 == 0;
+                let oracle_notional_zero = mul_div(feed_price, sz, d).unwrap_or(0) == 0 || twap == 0;
+                let path = if partial_path { "partial_path" } else { "full_path" };
+                // full path: bad debt exactly equal to the prepaid amount makes the engine ask the fund for zero tokens
+                let half = mul_div(qw, eng.liq_fee, d).unwrap_or(0) / 2;
+                let rem = e_spot.max(0) as u128;
+                let bad = (-e_spot).max(0) as u128 + half.saturating_sub(rem);
+                let zero_withdrawal = !partial_path && bad != 0 && bad == eng.bad_debt;
+                if ec == "transfer" && zero_withdrawal {
+                    format!("{},{},bad_debt_equals_prepaid", ec, path)
+                } else if ec == "transfer" {
+                    format!("{},{},{}", ec, path, if fee_zero { "liquidator_fee_rounds_to_zero" } else if vault_short { "vault_short" } else { "vault_ok" })
+                } else if ec == "panic" {
+                    format!("{},{},{}", ec, path, if oracle_notional_zero { "dust_notional_zero" } else { "other" })
+                } else {
+                    format!("{},{}", ec, path)
+                }
+            };
+            r.ev.violation(
+                "liveness",
+                &disc,
+                json!({"vamm": v, "trader": t, "side": side, "ratio_liq": rl.to_string(), "maintenance": eng.maintenance.to_string(), "liq_fee": eng.liq_fee.to_string(), "partial": eng.partial.to_string(), "vault": vault.to_string(), "equity_spot": e_spot.to_string(), "error": crate::run::tail(&out.err, 200), "message_trace": out.trace}),
+            );
+        }
+    }
+    let _ = pi;
+}
